@@ -26,7 +26,7 @@ type interruption struct {
 	ExitFlush  bool
 	ChunkDelta int    // this run uses chunk size base+delta (99: another chunk size that keeps some file's chunk count)
 	Site       string // "" = kill at the At-th fraction of all hook hits; else of the hits of this site
-	Tamper     string  // C06 histories: what happens to a partially received data file before this run ("" = nothing)
+	Tamper     string // C06 histories: what happens to a partially received data file before this run ("" = nothing)
 	TamperFile int
 	TamperFrac float64
 }
@@ -92,6 +92,26 @@ func fileKeyOf(it manifest.FileItem) uint64 {
 	return h.Sum64()
 }
 
+// sameCountChunk returns another chunk size under which some multi-chunk file of the tree
+// keeps its chunk count (the largest such change: the two geometries then differ most), or
+// base when there is none.
+func sameCountChunk(x xcase, base int) int {
+	for d := 80; d >= 1; d-- {
+		for _, c2 := range []int{base + d, base - d} {
+			if c2 < 1 {
+				continue
+			}
+			for _, f := range x.Tree.Files() {
+				n1, n2 := (f.Size+base-1)/base, (f.Size+c2-1)/c2
+				if n1 >= 2 && n1 == n2 {
+					return c2
+				}
+			}
+		}
+	}
+	return base
+}
+
 // crashEnv is a materialised workload shared by the runs of one history.
 type crashEnv struct {
 	dir  string
@@ -110,7 +130,7 @@ func newCrashEnv(x xcase, label string) (*crashEnv, error) {
 		return nil, err
 	}
 	e := &crashEnv{dir: dir, src: filepath.Join(dir, "src"), out: p.out, p: p}
-	e.spec = childSpec{Src: e.src, Base: x.Tree.Base, Out: p.out, Chunk: x.Chunk, Streams: x.Streams, NoRootDir: x.NoRootDir, Mode: x.Mode, QUICVis: x.QUICVis}
+	e.spec = childSpec{Src: e.src, Base: x.Tree.Base, Out: p.out, Chunk: x.Chunk, Streams: x.Streams, NoRootDir: x.NoRootDir, Mode: x.Mode, QUICVis: x.QUICVis, Segment: x.Segment}
 	return e, nil
 }
 
@@ -315,23 +335,7 @@ func runHistory(cc crashCase, which string) (sig, detail string, st historyStats
 			sp.KillAt = 1 + int(in.At*float64(siteCount[in.Site]))
 		}
 		if in.ChunkDelta == 99 {
-			// another chunk size under which some multi-chunk file keeps its chunk count
-			base := e.spec.Chunk
-		search:
-			for d := 80; d >= 1; d-- { // the largest change that keeps a chunk count: geometries differ most
-				for _, c2 := range []int{base + d, base - d} {
-					if c2 < 1 {
-						continue
-					}
-					for _, f := range cc.X.Tree.Files() {
-						n1, n2 := (f.Size+base-1)/base, (f.Size+c2-1)/c2
-						if n1 >= 2 && n1 == n2 {
-							sp.Chunk = c2
-							break search
-						}
-					}
-				}
-			}
+			sp.Chunk = sameCountChunk(cc.X, e.spec.Chunk)
 		} else if sp.Chunk+in.ChunkDelta >= 1 {
 			sp.Chunk += in.ChunkDelta
 		}
@@ -423,7 +427,9 @@ func runHistory(cc crashCase, which string) (sig, detail string, st historyStats
 	fin := e.spec
 	fin.Kind = "none"
 	fin.HashDelay = cc.Delay
-	if fin.Chunk+cc.FinalDelta >= 1 {
+	if cc.FinalDelta == 99 {
+		fin.Chunk = sameCountChunk(cc.X, e.spec.Chunk)
+	} else if fin.Chunk+cc.FinalDelta >= 1 {
 		fin.Chunk += cc.FinalDelta
 	}
 	oc, rerr := e.run(fin)
@@ -470,6 +476,7 @@ func genCrashCase(t *rapid.T) crashCase {
 	x.NoRootDir = rapid.IntRange(0, 3).Draw(t, "rootdir") != 0
 	x.Mode = rapid.SampledFrom([]string{"scan", "paths"}).Draw(t, "mode")
 	x.QUICVis = rapid.Bool().Draw(t, "quicvis")
+	x.Segment = rapid.SampledFrom([]int{0, 0, 0, 1, 7, 13}).Draw(t, "segment")
 	cc := crashCase{X: x, Delay: rapid.SampledFrom([]int{0, 0, 0, 2, 10}).Draw(t, "hashdelay")}
 	n := rapid.IntRange(1, 3).Draw(t, "chain")
 	for i := 0; i < n; i++ {
@@ -483,7 +490,7 @@ func genCrashCase(t *rapid.T) crashCase {
 		})
 	}
 	cc.Chain[0].ChunkDelta = 0
-	cc.FinalDelta = rapid.SampledFrom([]int{0, 0, 0, 1, -1, 3}).Draw(t, "final_chunk")
+	cc.FinalDelta = rapid.SampledFrom([]int{0, 0, 0, 1, -1, 3, 99, 99}).Draw(t, "final_chunk")
 	return cc
 }
 
